@@ -5,13 +5,14 @@ ROOT = os.path.dirname(os.path.dirname(os.path.abspath(__file__)))
 rows = []
 for f in sorted(glob.glob(os.path.join(ROOT, "seeded", "*", "meta.json"))):
     m = json.load(open(f))
-    rows.append(f"| {m['id']} | {m['property']} | {m['needs_to_manifest']} | {m['detected_by']} |")
+    lf = m.get("last_full_run", {})
+    rows.append(f"| {m['id']} | {m['property']} | {m['needs_to_manifest']} | {m['detected_by']} | {lf.get('verdict', '-')} |")
 with open(os.path.join(ROOT, "seeded", "README.md"), "w") as o:
     o.write("# Seeded changes\n\nEach directory holds `patch.diff` (a change to /repo that breaks the property, compiles, and keeps the\n"
             "existing suite green), `demo.rs` (fails with the change, passes without), `notes.md` (the author's notes) and\n"
             "`meta.json`. The changes were written by sub-agents that saw only the property text and a scratch worktree\n"
             "of /repo; each was confirmed with `tools/confirm_seed.sh` and run against the checks with `tools/mutcheck.sh`\n"
             "(a patched *copy* of /repo). To repeat on /repo itself: `git -C /repo apply seeded/<id>/patch.diff; ./check <Cxx>;\n"
-            "git -C /repo checkout -- .`\n\n| id | property | what it needs to manifest | which check catches it |\n|---|---|---|---|\n")
+            "git -C /repo checkout -- .`\n\n| id | property | what it needs to manifest | which check catches it | own property's quick check, last full run |\n|---|---|---|---|---|\n")
     o.write("\n".join(rows) + "\n")
 print(len(rows), "seeds")
